@@ -357,6 +357,15 @@ func driveCPRand(s *exec.State, g *gen.G, n int) {
 				pk = append(pk, sdesMulti(pk))
 				continue
 			}
+			if j > 1 && g.R.Intn(8) == 0 {
+				// a compound inside the compound, once or - the same object - twice
+				inner := abs.V{"k": "CP", "pkts": abs.L{g.RR(), abs.V{"k": "SDES", "chunks": abs.L{abs.V{"src": g.U32(), "items": abs.L{abs.V{"t": 1, "text": g.Bytes(g.Int(1, 5))}}}}}, g.PLI()}}
+				pk = append(pk, inner)
+				if g.Bool() {
+					pk = append(pk, g.Of("BYE"), inner)
+				}
+				continue
+			}
 			if g.R.Intn(8) == 0 {
 				// an opaque packet whose own header octets name a report or a description: it is a RawPacket
 				// all the same (the grammar goes by what the member is, not by what its octets say)
@@ -728,6 +737,45 @@ func init() {
 				scriptRT(s, sdes)
 				if b := specSDES(sdes); b != nil {
 					scriptDgram(s, b)
+				}
+			}
+		}
+		// identifier-like tokens (four printable characters) in one word of a small feedback packet while one other
+		// word is changed as well: a dispatcher or decoder that looks at two words of the body to decide what it has
+		var idents [][]byte
+		for _, tk := range append(append([][]byte{}, gen.Dict...), []byte("ABCD"), []byte("XXXX")) {
+			ok := len(tk) == 4
+			for _, c := range tk {
+				ok = ok && c >= 'A' && c <= 'Z'
+			}
+			if ok {
+				idents = append(idents, tk)
+			}
+		}
+		g3 := gen.New(11)
+		for _, kind := range []string{"REMB", "FIR", "PLI", "NACK", "SLI", "RRR", "CCFB", "TWCC"} {
+			var base []byte
+			for try := 0; try < 50 && (base == nil || len(base) > 36); try++ {
+				base = encodeWith(g3.Of(kind))
+			}
+			if base == nil {
+				continue
+			}
+			for _, tk := range idents {
+				for off := 4; off+4 <= len(base); off += 4 {
+					for off2 := 4; off2+4 <= len(base); off2 += 4 {
+						if off2 == off {
+							continue
+						}
+						b := append([]byte(nil), base...)
+						copy(b[off:], tk)
+						if b[off2]|b[off2+1]|b[off2+2]|b[off2+3] == 0 {
+							copy(b[off2:], []byte{1, 2, 3, 4})
+						} else {
+							copy(b[off2:], []byte{0, 0, 0, 0})
+						}
+						scriptOwn(s, b, kind)
+					}
 				}
 			}
 		}
